@@ -17,6 +17,7 @@ import (
 var errInjected = errors.New("verif: injected tier failure")
 
 // ---- values:  "-" absent | s<n> string | i<n> int64 | L<a>,<b>… []interface{}{"e<a>","e<b>",…}
+//               J<a>,<b>… the same list as a JSON string `["e<a>","e<b>"]` (what remote storage / Redis answer)
 
 func encVal(tok string) (interface{}, bool) {
 	switch {
@@ -27,6 +28,14 @@ func encVal(tok string) (interface{}, bool) {
 	case strings.HasPrefix(tok, "i"):
 		n, _ := strconv.ParseInt(tok[1:], 10, 64)
 		return n, true
+	case strings.HasPrefix(tok, "J"):
+		parts := []string{}
+		if len(tok) > 1 {
+			for _, x := range strings.Split(tok[1:], ",") {
+				parts = append(parts, `"e`+x+`"`)
+			}
+		}
+		return "[" + strings.Join(parts, ",") + "]", true
 	case strings.HasPrefix(tok, "L"):
 		l := []interface{}{}
 		if len(tok) > 1 {
@@ -44,6 +53,20 @@ func decVal(v interface{}) string {
 	case nil:
 		return "?nil"
 	case string:
+		if strings.HasPrefix(x, "[") && strings.HasSuffix(x, "]") {
+			inner := x[1 : len(x)-1]
+			parts := []string{}
+			if inner != "" {
+				for _, e := range strings.Split(inner, ",") {
+					e = strings.TrimSpace(e)
+					if len(e) < 4 || !strings.HasPrefix(e, `"e`) || !strings.HasSuffix(e, `"`) {
+						return "?json"
+					}
+					parts = append(parts, e[2:len(e)-1])
+				}
+			}
+			return "J" + strings.Join(parts, ",")
+		}
 		if strings.HasPrefix(x, "s") {
 			if _, err := strconv.Atoi(x[1:]); err == nil {
 				return x
